@@ -396,9 +396,11 @@ func (e *encoderState) WriteToken(t Token) error {
 			break
 		}
 		e.Names.push()
-		if !e.Flags.Get(jsonflags.AllowDuplicateNames) {
-			e.Namespaces.push()
-		}
+		// Always track a namespace per object, even if AllowDuplicateNames is set,
+		// so that the stack stays balanced when the flag differs between the
+		// begin and end of an object (e.g., a per-call option on UnmarshalDecode
+		// or MarshalEncode that fails mid-object).
+		e.Namespaces.push()
 		e.Flags.Clear(jsonflags.TagFlags) // tags only apply to current depth
 	case '}':
 		b = append(b, '}')
@@ -406,9 +408,7 @@ func (e *encoderState) WriteToken(t Token) error {
 			break
 		}
 		e.Names.pop()
-		if !e.Flags.Get(jsonflags.AllowDuplicateNames) {
-			e.Namespaces.pop()
-		}
+		e.Namespaces.pop()
 	case '[':
 		b = append(b, '[')
 		err = e.Tokens.pushArray()
